@@ -301,3 +301,167 @@ Proof.
 Qed.
 
 End P4b.
+
+(* ---------- server, run level: in SERVER_EXPECT_FINISHED the state is the result of _server_expect_finished -------- *)
+Section P4c.
+Variable O : oracles.
+
+Ltac fields := cbn [t_state t_ks t_kpsk t_kproxy t_resumed t_alpn t_early t_creq t_peer t_enc t_dec t_next_dec t_expected
+                    t_recv_ext t_ext t_kex_mode t_keys set_state set_ks add_key log_key the_ks] in *.
+
+Definition server_state (x : State) : bool :=
+  match x with
+  | SERVER_EXPECT_CLIENT_HELLO | SERVER_EXPECT_CERTIFICATE | SERVER_EXPECT_CERTIFICATE_VERIFY | SERVER_EXPECT_FINISHED
+  | SERVER_POST_HANDSHAKE => true
+  | _ => false
+  end.
+
+Definition sinv (s : tst) : Prop :=
+  server_state (t_state s) = true /\
+  (t_state s = SERVER_EXPECT_FINISHED -> exists s0, s = server_expect_finished O s0).
+
+Lemma sef_state : forall s0, t_state (server_expect_finished O s0) = SERVER_EXPECT_FINISHED.
+Proof. reflexivity. Qed.
+
+Lemma server_flight_states : forall c s5 sid suite comp sigalg version kex psk g pubk shared o s' out,
+  server_flight O c s5 sid suite comp sigalg version kex psk g pubk shared = (o, s', out) ->
+  t_state s' = t_state s5 \/ t_state s' = SERVER_EXPECT_CERTIFICATE \/ exists s0, s' = server_expect_finished O s0.
+Proof.
+  intros c s5 sid suite comp sigalg version kex psk g pubk shared o s' out H.
+  unfold server_flight in H. cbv zeta in H.
+  match type of H with (let '(k3, authmsgs) := ?X in _) = _ => destruct X as [k3 authmsgs] end.
+  match type of H with (if negb ?b then _ else _) = _ => destruct b end; cbn [negb] in H.
+  - destruct (f_reqcert c); inversion H; subst.
+    + right; left. reflexivity.
+    + right; right. eexists. reflexivity.
+  - inversion H; subst. left. reflexivity.
+Qed.
+
+Lemma server_hello_states : forall c s m o s' out,
+  server_handle_hello O c s m = (o, s', out) ->
+  t_state s' = t_state s \/ t_state s' = SERVER_EXPECT_CERTIFICATE \/ exists s0, s' = server_expect_finished O s0.
+Proof.
+  intros c s m o s' out H. unfold server_handle_hello in H.
+  apply with_parse_inv in H. destruct H as [(v & _ & H) | [-> _]]; [| left; reflexivity].
+  destruct (negotiate memz (f_suites c) (ch_suites v)) as [suite |]; [| inversion H; left; reflexivity].
+  destruct (negotiate memz (f_comp c) (ch_comp v)) as [comp |]; [| inversion H; left; reflexivity].
+  destruct (negotiate_opt memz (f_key_sigalgs c) (ch_sigalgs v)) as [sigalg |]; [| inversion H; left; reflexivity].
+  destruct (negotiate_opt memz (f_versions c) (ch_versions v)) as [version |]; [| inversion H; left; reflexivity].
+  apply with_parse_inv in H. destruct H as [(alpn & _ & H) | [-> _]]; [| left; reflexivity].
+  cbv zeta in H.
+  destruct (f_alpn_cb c alpn (ch_other v)) as [code newext].
+  destruct (negb (code =? 0)); [inversion H; left; reflexivity |].
+  apply with_parse_inv in H. destruct H as [(pskst & Hpsk & H) | [-> _]]; [| left; reflexivity].
+  assert (S5 : forall x, pskst = Some x -> t_state x = t_state s).
+  { intros x Hx. subst pskst.
+    repeat match type of Hpsk with
+    | context [match ?y with _ => _ end] => destruct y eqn:?
+    end; try discriminate; inversion Hpsk; reflexivity. }
+  apply with_parse_inv in H. destruct H as [(kx & _ & H) | [-> _]].
+  - destruct kx as [[[g pubk] shared] |].
+    + apply server_flight_states in H. destruct H as [H | H]; [left | right; exact H].
+      rewrite H. destruct pskst; [apply S5; reflexivity | reflexivity].
+    + inversion H; subst. left. destruct pskst; [apply S5; reflexivity | reflexivity].
+  - left. destruct pskst; [apply S5; reflexivity | reflexivity].
+Qed.
+
+Lemma sinv_step : forall c s m o s' out, sinv s -> step O c s m = (o, s', out) -> sinv s'.
+Proof.
+  intros c s m o s' out I H. destruct I as [Hs Hf]. assert (I : sinv s) by (split; assumption).
+  clear Hf. unfold step in H.
+  destruct (t_state s) eqn:Es; try discriminate Hs;
+    (destruct (negb (framedb m)); [inversion H; subst; exact I |]);
+    rewrite dispatch_all in H; cbn [legal_next] in H;
+    repeat match type of H with
+    | context [if ?b then _ else _] => destruct b
+    end;
+    cbn [run_handler] in H;
+    try (inversion H; subst; exact I).
+  - (* ClientHello *)
+    apply server_hello_states in H. rewrite Es in H. destruct H as [H | [H | [s0 ->]]].
+    + split; rewrite H; [reflexivity | discriminate].
+    + split; rewrite H; [reflexivity | discriminate].
+    + split; [reflexivity | intros _; eexists; reflexivity].
+  - (* Certificate *)
+    unfold server_handle_certificate in H.
+    apply with_parse_inv in H. destruct H as [(v & _ & H) | [-> _]]; [| exact I].
+    cbv zeta in H. destruct (ct_certs v) as [| e r].
+    + inversion H; subst. split; [reflexivity | intros _; eexists; reflexivity].
+    + apply with_parse_inv in H. destruct H as [(s2 & Hset & H) | [-> _]].
+      * inversion H; subst. split; [reflexivity | discriminate].
+      * split; fields; rewrite Es; [reflexivity | discriminate].
+  - (* CertificateVerify *)
+    unfold server_handle_certificate_verify in H.
+    apply with_parse_inv in H. destruct H as [(v & _ & H) | [-> _]]; [| exact I].
+    destruct (check_cv O c s v CLIENT_CONTEXT_STRING); inversion H; subst.
+    + exact I.
+    + split; [reflexivity | intros _; eexists; reflexivity].
+  - (* Finished *)
+    unfold server_handle_finished in H.
+    apply with_parse_inv in H. destruct H as [(v & _ & H) | [-> _]]; [| exact I].
+    destruct (negb (beqb v (t_expected s))); inversion H; subst.
+    + exact I.
+    + split; [reflexivity | discriminate].
+Qed.
+
+Lemma sinv_run : forall c ms s, sinv s -> sinv (run O c s ms).
+Proof.
+  intros c ms. induction ms as [| m r IH]; intros s I; simpl; [exact I |].
+  destruct (step O c s m) as [[o s1] out] eqn:E. apply IH. eapply sinv_step; eauto.
+Qed.
+
+Lemma server_awaiting_finished : forall c ms,
+  let s := run O c (init_server c) ms in
+  t_state s = SERVER_EXPECT_FINISHED -> exists s0, s = server_expect_finished O s0.
+Proof.
+  intros c ms s Hs. assert (I : sinv (init_server c)) by (split; [reflexivity | discriminate]).
+  apply (sinv_run c ms) in I. fold s in I. apply I. exact Hs.
+Qed.
+
+End P4c.
+
+Section P4d.
+Variable O : oracles.
+Hypothesis Hhash : forall a x y, o_hash O a x = o_hash O a y -> x = y.
+Hypothesis Hmac : forall a k m a' k' m', o_hmac O a k m = o_hmac O a' k' m' -> a = a' /\ k = k' /\ m = m'.
+Hypothesis Hkdf : forall a s l h a' s' l' h',
+  o_expand O a s l h = o_expand O a' s' l' h' -> a = a' /\ s = s' /\ l = l' /\ h = h'.
+Hypothesis Hfin : forall vd, o_parse_fin O (o_build_fin O vd) = POk vd.
+
+(* server, every message sequence: if the server completes by accepting the Finished the honest client computed
+   over its schedule kC with its "c hs traffic" secret eC, then the transcript the server held when it started to
+   wait for that Finished, its hash algorithm and its client-handshake secret are the client's; hence no handshake
+   message in either direction reached the server altered (first conjunct + altered_message_changes_transcript) *)
+Lemma server_agreement_run_lemma : forall sc ms m ss' out kC eC,
+  let ss := run O sc (init_server sc) ms in
+  t_state ss = SERVER_EXPECT_FINISHED ->
+  server_handle_finished O sc ss m = (OOk, ss', out) ->
+  m = o_build_fin O (ks_finished O kC eC) ->
+  exists s0, ss = server_expect_finished O s0 /\
+             k_tr (the_ks s0) = k_tr kC /\ k_alg (the_ks s0) = k_alg kC /\ t_dec s0 = eC /\
+             (forall pre a a' post post', k_tr kC = pre ++ a ++ post -> k_tr (the_ks s0) = pre ++ a' ++ post' ->
+                                          framed a -> framed a' -> a = a').
+Proof.
+  intros sc ms m ss' out kC eC ss Hs H Hm.
+  destruct (server_awaiting_finished O sc ms Hs) as [s0 E0]. fold ss in E0.
+  exists s0. split; [exact E0 |]. rewrite E0 in H.
+  destruct (transcript_agreement_server_lemma O Hhash Hmac Hkdf Hfin sc s0 m ss' out kC eC H Hm) as (A & B & C).
+  split; [exact A |]. split; [exact B |]. split; [exact C |].
+  intros pre a a' post post' T1 T2 F F'.
+  rewrite T1, T2 in A. apply app_inv_head in A. apply framed_prefix_eq in A; auto. destruct A as [A _]. symmetry. exact A.
+Qed.
+
+(* client, every message sequence: the same "no altered message" conclusion for the Finished of an honest flight *)
+Lemma client_no_altered_message : forall cc ms finm cs' outC kF eS,
+  let cs := run O cc (client_started O cc) ms in
+  client_handle_finished O cc cs finm = (OOk, cs', outC) ->
+  finm = o_build_fin O (ks_finished O kF eS) ->
+  forall pre a a' post post', k_tr kF = pre ++ a ++ post -> k_tr (the_ks cs) = pre ++ a' ++ post' ->
+                              framed a -> framed a' -> a = a'.
+Proof.
+  intros cc ms finm cs' outC kF eS cs H Hm pre a a' post post' T1 T2 F F'.
+  destruct (transcript_agreement_client_lemma O Hhash Hmac Hkdf Hfin cc cs finm cs' outC kF eS H Hm) as (A & _).
+  rewrite T1, T2 in A. apply app_inv_head in A. apply framed_prefix_eq in A; auto. destruct A as [A _]. symmetry. exact A.
+Qed.
+
+End P4d.
